@@ -408,9 +408,9 @@ def c11_jobs(tier, seed):
     return jobs
 
 
-C12_CFGS_Q = [SMALL, HOST, NOSSE, 'small_nosse_cache_seq', 'mid_sse_ts_omp', 'host_nosse_cache_omp', 'c128_sse_cache_seq']
+C12_CFGS_Q = [SMALL, HOST, NOSSE, 'small_nosse_cache_seq', 'mid_sse_ts_omp', 'host_nosse_cache_omp', 'c128_sse_cache_seq', 'ceq_nosse_cache_seq']
 C12_CFGS_T = C12_CFGS_Q + ['mid_sse_cache_seq', 'small_sse_ts_seq', 'host_sse_ts_seq', 'small_sse_cache_omp', 'host_sse_cache_omp', 'mid_nosse_cache_seq',
-                           'small_nosse_ts_omp', 'host_nosse_ts_seq', 'mid_nosse_ts_omp', 'small_nosse_ts_seq', 'c256_nosse_cache_seq', 'c4m_sse_ts_omp', 'c128_nosse_ts_omp', 'c256_sse_cache_omp']
+                           'small_nosse_ts_omp', 'host_nosse_ts_seq', 'mid_nosse_ts_omp', 'small_nosse_ts_seq', 'c256_nosse_cache_seq', 'c4m_sse_ts_omp', 'c128_nosse_ts_omp', 'c256_sse_cache_omp', 'cl1_sse_cache_seq', 'ceq_sse_ts_omp']
 C12_FAMS = [('mul', 240), ('elim', 160), ('ple', 120), ('trsm', 120), ('inv', 80), ('solve', 120), ('kernel', 80)]
 
 
